@@ -45,14 +45,31 @@ Classes of inputs added by the audit after the third round of seeded changes (ev
   `register_keys`, carries the name it is registered under NOW and the arrays the file holds for the column it was registered from.
   The harness follows the registry itself (a disagreement about the registered keys is reported as a broken tie, not as a violation);
   these histories are outside the model `rb.run` and are decided by the clauses alone;
+* FAULT POINTS (sixth round): calls that the database or a series REFUSES (op `refuse`, REFUSE_KINDS: a rename to a name that is taken
+  / to something that is not a string / of an unknown or ambiguous name; get / geta / getm / getd / getl / getda with an unknown or
+  ambiguous name, an index out of range, both or neither of name and index, ill-typed names or indices (also numpy integers);
+  geta with processing options that are rejected AFTER the series has been read and stored; load of a missing / unreadable /
+  already registered file, of a directory, of a non-string, of a list whose first file is fine and whose second is not; clear / add /
+  update / copy / export with ill-typed arguments, update with keys that exist, export to an unknown format, to_dataframe without a
+  common time array; a multi-file request while the data file of one file is gone from disk (it is put back afterwards); on a
+  series handed out: set_dtg_ref with a non-datetime / without a reference / mixing time-zone-aware and naive references, modify /
+  resample / filter / interpolate with rejected options) are inserted between the retrievals and the accepted renames of the
+  registry histories, on the SAME database object.  After every refused call everything the database holds is audited (name it is
+  registered under, arrays of the file), the registered keys must be the ones registered before, and the retrievals that follow (by
+  index, name, full key, '*', cached and not) are evaluated by the same clauses as always;
+* a call that does not return: every call on a database is made by a worker thread and awaited for a few seconds; a call that does
+  not come back (e.g. a lock that a refused call left behind) is a failing clause ("the call returns"), the history is abandoned and
+  the histories with refused calls evaluated before it in the same process are made part of the failing input (`before`);
 * crashes: a load of a readable file or a request for registered series that raises is a failing clause; an exception anywhere in
   the evaluation of a history is reported with the history as failing input.
 """
 import itertools
 import os
+import queue
 import shutil
 import struct
 import tempfile
+import threading
 from fractions import Fraction
 
 import numpy as np
@@ -99,7 +116,14 @@ RULE = ("files: per format 4 (quick) / 6 (thorough) synthesised files with 1-5 s
         "retrievals: 2-3 rounds of (rename of 1-2 series, mostly not the last registered / two series exchanging names / clear of 1-2 "
         "series) each followed by get/geta(ind=i) for every i (ascending, descending or shuffled, 20% counted from the end, store 60%), "
         "one getm/getl/getda/getd over a permutation of all indices, three requests by current name or full key, '*' and a second pass "
-        "over the indices; half of them on two files (the other of any format); cache state fresh / eager / partly read")
+        "over the indices; half of them on two files (the other of any format); cache state fresh / eager / partly read; "
+        "sixth round: per format 2 (quick) / 8 (thorough) histories + one per second feature file in which one call of every kind the "
+        "entry points refuse (REFUSE_KINDS, 38 draws of 32 kinds: rename taken / ill-typed / unknown / ambiguous, get* unknown / ambiguous / "
+        "out of range / conflicting / ill-typed, geta with rejected options, load missing / again / unreadable / directory / ill-typed / "
+        "list failing part-way, clear / add / update / copy / export / to_dataframe rejected, data file gone from disk, rejected "
+        "set_dtg_ref / modify / resample / filter on a series handed out) is made on the same database in random order, each followed by "
+        "2-3 retrievals (index / current name / '*', stored 40%), an accepted rename after every ninth, then the registry rounds with "
+        "1-2 refused calls after every change; every call on a database runs in a worker thread with a time limit")
 
 TDA_KEY_HEAD = """** Info about series written by SIMO-S2XMOD
 ** 26-NOV-2016 20:59
@@ -933,15 +957,34 @@ def touch_history(spec, rng):
 
 
 RENAME_POOL = ["zz", "x_lf", "renamed 1", "Time", "END", "R [kN]", "Q[m/s]", "b", "a", "ab", "Fx", "fx", "time", "0"]
-REGISTRY_OPS = ("rename", "clear")
+REGISTRY_OPS = ("rename", "clear", "refuse")
+
+# calls the entry points REFUSE (op `refuse`): every kind is a call on the same database object that raises on the unchanged tree
+# (or, for the kinds not in REFUSE_MUST, may raise depending on the cache state / the file); nothing about the database may have
+# changed afterwards.  REFUSE_MUST: kinds that would change the registry if they were accepted (the harness then no longer knows
+# what is registered where: reported as a broken tie and the history is abandoned).
+REFUSE_KINDS = ["rename_taken", "rename_taken", "rename_type", "rename_type", "rename_nomatch", "rename_ambiguous",
+                "get_nomatch", "get_ambiguous", "get_index", "get_both", "get_neither", "get_name_type", "get_ind_type",
+                "getm_both", "getm_index", "getm_ind_type", "getm_names_type", "geta_kwargs", "geta_kwargs", "geta_kwargs",
+                "load_missing", "load_again", "load_ext", "load_dir", "load_type", "load_partway", "clear_type", "add_type",
+                "update_taken", "update_type", "copy_type", "export_type", "export_ext", "getdf", "file_gone", "series", "series", "series"]
+REFUSE_MUST = ("rename_taken", "rename_type", "rename_nomatch", "rename_ambiguous", "load_missing", "load_again", "load_ext",
+               "load_dir", "load_type", "load_partway", "clear_type", "add_type", "update_taken", "update_type")
+SERIES_REFUSED = ["dtg_type", "dtg_none", "dtg_mixed", "modify_resample", "modify_filter", "modify_twin_resample", "modify_kw",
+                  "modify_twin", "resample_none", "resample_neg", "resample_outside", "filter_unknown", "filter_freqs", "filter_type",
+                  "get_filter", "interpolate_type"]
+GETA_REFUSED = ["resample_str", "filter_unknown", "filter_short", "filter_type", "twin_resample", "unknown_kw"]
 
 
 def has_registry_op(ops):
     return any(op[0] in REGISTRY_OPS for op in ops)
 
 
-def registry_history(specs, rng, quick=True):
-    """the registry CHANGES between retrievals: series of the 1-2 files are renamed (also: two series exchange their names, a series
+def registry_history(specs, rng, quick=True, refuse=None):
+    """`refuse`: None = as before; "some" = 1-2 refused calls (REFUSE_KINDS) after every change of the registry; "all" = in addition
+    one refused call of every kind that applies, in random order, each followed by retrievals on the same database, with an accepted
+    rename now and then in between.
+    The registry CHANGES between retrievals: series of the 1-2 files are renamed (also: two series exchange their names, a series
     takes the name another one had on the file, a name of the other file, a case variant of its own name) or removed from the database,
     under three cache states (nothing read / everything read / some read); after every change every registered series is asked for by
     index (from the start / from the end, get / geta / getm / getl / getda, stored or not), by its current name and by '*':
@@ -1000,6 +1043,103 @@ def registry_history(specs, rng, quick=True):
         for i in (idx[::-1] if rng.random() < 0.5 else idx)[:n if rng.random() < 0.5 else 2]:       # (now mostly cached)
             ops.append([rng.choice(["get", "geta"]), ["ind", i], rng.random() < 0.6])
 
+    def refusal(kind):
+        """a call of the given kind that the database refuses in the registry state (reg, cur) of this moment; None: does not apply"""
+        n = len(reg)
+
+        def one():
+            return rng.choice(["get", "geta"])
+
+        def many():
+            return rng.choice(["getm", "getd", "getl", "getda"])
+
+        def st():
+            return rng.random() < 0.5
+        fj = rng.choice(reg)
+        a = None
+        if kind == "rename_taken":
+            sib = [q for q in reg if q[0] == fj[0] and q != fj]
+            if sib:
+                o = rng.choice(sib)
+                a = dict(t=target(fj), other=["key", o[0], o[1]])
+        elif kind == "rename_type":
+            a = dict(t=target(fj), val=rng.choice(["none", "int", "float", "bytes", "list"]))
+        elif kind == "rename_nomatch":
+            a = dict(new=rng.choice(RENAME_POOL))
+        elif kind == "rename_ambiguous":
+            if sum(1 for q in reg if q[0] == fj[0]) > 1:
+                a = dict(pat=rng.choice([["lit", "*"], ["file", fj[0]]]), new=rng.choice(RENAME_POOL))
+        elif kind == "get_nomatch":
+            a = dict(api=one(), store=st())
+        elif kind == "get_ambiguous":
+            if n > 1:
+                a = dict(api=one(), store=st())
+        elif kind == "get_index":
+            a = dict(api=one(), ind=rng.choice([n, -n - 1, n + 3]), store=st())
+        elif kind == "get_both":
+            a = dict(api=one(), t=target(fj), ind=rng.randrange(n))
+        elif kind == "get_neither":
+            a = dict(api=one())
+        elif kind == "get_name_type":
+            a = dict(api=one(), val=rng.choice(["int", "list", "bytes"]))
+        elif kind == "get_ind_type":
+            a = dict(api=one(), val=rng.choice(["float", "str", "npint", "list"]), ind=rng.randrange(n), store=st())
+        elif kind == "getm_both":
+            a = dict(api=many(), t=target(fj), ind=rng.randrange(n))
+        elif kind == "getm_index":
+            a = dict(api=many(), ind=[rng.randrange(n), rng.choice([n, -n - 1])], store=st())
+        elif kind == "getm_ind_type":
+            a = dict(api=many(), val=rng.choice(["list", "float"]))
+        elif kind == "getm_names_type":
+            a = dict(api=many(), val=rng.choice(["int", "set", "dict"]))
+        elif kind == "geta_kwargs":
+            a = dict(t=target(fj), which=rng.choice(GETA_REFUSED), store=st())
+        elif kind == "series":
+            a = dict(t=target(fj), which=rng.choice(SERIES_REFUSED), store=st())
+        elif kind == "load_again":
+            # (refused for certain only while a series of the file is still registered under the name it has on the file)
+            fis = sorted(set(q[0] for q in reg if cur[q] == specs[q[0]]["names"][q[1]]))
+            if fis:
+                a = dict(file=rng.choice(fis), read=st())
+        elif kind == "load_partway":
+            # several files in one call: a readable one that is not registered yet, then one that cannot be loaded
+            a = dict(then=rng.choice(["missing", "ext", "dir"]), read=st())
+        elif kind in ("load_type", "clear_type", "add_type", "copy_type"):
+            a = dict(val=rng.choice(dict(load_type=["int", "none"], clear_type=["int", "set"], add_type=["str", "none"],
+                                         copy_type=["int", "dict"])[kind]))
+        elif kind == "update_taken":
+            a = dict(t=target(fj) if rng.random() < 0.6 else None)
+        elif kind == "getdf":
+            a = dict(store=st())
+        elif kind == "file_gone":
+            a = dict(file=fj[0], rev=st(), store=st(), api=many())
+        else:
+            a = {}
+        return None if a is None else ["refuse", kind, a]
+
+    def probe():
+        """a few retrievals on the same database (some stored, some not)"""
+        n = len(reg)
+        i = rng.randrange(n)
+        ops.append([rng.choice(["get", "geta"]), ["ind", i - n if rng.random() < 0.2 else i], rng.random() < 0.4])
+        ops.append([rng.choice(["get", "geta"]), ["name", target(rng.choice(reg))], rng.random() < 0.4])
+        if rng.random() < 0.25:
+            ops.append(["getm", ["names", None], False, True])
+
+    if refuse == "all":
+        kinds = list(REFUSE_KINDS)
+        rng.shuffle(kinds)
+        kinds.remove("file_gone")
+        kinds.insert(rng.randrange(3), "file_gone")         # (early: while series of the file are still unread)
+        for q, kind in enumerate(kinds):
+            r = refusal(kind)
+            if r is not None:
+                ops.append(r)
+                probe()
+            if q % 9 == 8:
+                fj = rng.choice(reg)
+                rename(fj, fresh_name(*fj))         # an accepted change in between: later refusals meet a changed registry
+        sweep()
     for rnd in range(2 if quick else 3):
         r = rng.random()
         notlast = [fj for fj in reg if fj != reg[-1]] or list(reg)
@@ -1023,6 +1163,11 @@ def registry_history(specs, rng, quick=True):
             # (mostly a series that is not the last one registered: the ones after it keep their indices)
             for fj in rng.sample(notlast, 1 if rng.random() < 0.7 else min(2, len(notlast))):
                 rename(fj, fresh_name(*fj))
+        if refuse:
+            for kind in rng.sample(REFUSE_KINDS, rng.choice([1, 2])):
+                r = refusal(kind)
+                if r is not None:
+                    ops.append(r)
         sweep()
     return ops
 
@@ -1335,11 +1480,171 @@ def tainted(state, key):
     return held is not None and any(held is o for o in state.get("touched", ()))
 
 
+def odd_value(s, i=0):
+    """an argument of a type the entry point does not accept (or, for npint, an equal value in another spelling)"""
+    return dict(none=None, int=5, float=float(i), bytes=b"x", list=[i] if s == "list" and i else ["a"], str=str(i), npint=np.int64(i),
+                set={"a"}, dict={"a": 1})[s]
+
+
+def scratch_dir(paths):
+    return os.path.dirname(os.path.dirname(paths[0]))
+
+
+def scratch_file(paths, which):
+    """files next to the data directories that refused loads refer to: a file of a type that cannot be read, a small readable
+    file that no history registers (written on first use)"""
+    top = scratch_dir(paths)
+    p = os.path.join(top, dict(ext="not_a_series_file.xyz", ok="never_registered.csv")[which])
+    if not os.path.exists(p):
+        with open(p, "w") as f:
+            f.write("time,u,v\n0.0,1.0,2.0\n1.0,3.0,4.0\n2.0,5.0,6.0\n")
+    return p
+
+
+def series_refused(ts, which):
+    """a call on a series handed out by the database that the series refuses (it raises): an ill-typed / missing / time-zone-mixed
+    date-time reference, a modification / resampling / filtering with options that are rejected"""
+    from datetime import datetime, timezone
+    if which == "dtg_type":
+        return ts.set_dtg_ref("2020-01-01 12:00")
+    if which == "dtg_none":
+        return ts.set_dtg_ref() if ts.dtg_ref is None else ts.set_dtg_ref(5)
+    if which == "dtg_mixed":
+        if ts.dtg_ref is None:
+            ts.set_dtg_ref(datetime(2020, 1, 1, 12, 0, 0))              # accepted: a reference is set, the arrays stay
+        other = datetime(2020, 1, 1, 11, 0, 0, tzinfo=None if ts.dtg_ref.tzinfo is not None else timezone.utc)
+        return ts.set_dtg_ref(other)                                    # refused: one with, one without a time zone
+    if which == "modify_resample":
+        return ts.modify(resample="x")
+    if which == "modify_filter":
+        return ts.modify(filterargs=("nosuch", 1.0))
+    if which == "modify_twin_resample":
+        return ts.modify(twin=(0.0, 1.0), resample=[0.0, 0.5, 1.0])
+    if which == "modify_kw":
+        return ts.modify(no_such_option=1)
+    if which == "modify_twin":
+        return ts.modify(twin=(1.0,))
+    if which == "resample_none":
+        return ts.resample()
+    if which == "resample_neg":
+        return ts.resample(dt=-1.0)
+    if which == "resample_outside":
+        return ts.resample(t=np.array([ts.start - 1.0, ts.start]))
+    if which == "filter_unknown":
+        return ts.filter("nosuch", 1.0)
+    if which == "filter_freqs":
+        return ts.filter("lp", (1.0, 2.0))
+    if which == "filter_type":
+        return ts.filter("bp", "xy")
+    if which == "get_filter":
+        return ts.get(filterargs=("bp", 1.0))
+    if which == "interpolate_type":
+        return ts.interpolate("x")
+    raise ValueError(which)
+
+
+def do_refused(state, op, specs, paths):
+    """the call of a `refuse` op, on the real database (it is expected to raise)"""
+    db, kind, a = state["db"], op[1], op[2]
+    cur = state.get("cur") or {}
+
+    def res(pat):
+        return resolve(pat, specs, paths, cur)
+    if kind == "rename_taken":
+        o = a["other"]
+        return db.rename(res(a["t"]), cur.get((o[1], o[2]), specs[o[1]]["names"][o[2]]))
+    if kind == "rename_type":
+        return db.rename(res(a["t"]), odd_value(a["val"]))
+    if kind == "rename_nomatch":
+        return db.rename("no_such_series", a["new"])
+    if kind == "rename_ambiguous":
+        return db.rename(res(a["pat"]), a["new"])
+    if kind.startswith("get_"):
+        f = getattr(db, a["api"])
+        skw = dict(store=a["store"]) if "store" in a else {}
+        if kind == "get_nomatch":
+            return f(name="no_such_series", **skw)
+        if kind == "get_ambiguous":
+            return f(name="*", **skw)
+        if kind == "get_index":
+            return f(ind=a["ind"], **skw)
+        if kind == "get_both":
+            return f(name=res(a["t"]), ind=a["ind"])
+        if kind == "get_neither":
+            return f()
+        if kind == "get_name_type":
+            return f(name=odd_value(a["val"]))
+        if kind == "get_ind_type":
+            return f(ind=odd_value(a["val"], a["ind"]), **skw)
+    if kind.startswith("getm_"):
+        f = getattr(db, a["api"])
+        skw = dict(store=a["store"]) if "store" in a else {}
+        if kind == "getm_both":
+            return f(names=[res(a["t"])], ind=[a["ind"]])
+        if kind == "getm_index":
+            return f(ind=list(a["ind"]), **skw)
+        if kind == "getm_ind_type":
+            return f(ind=odd_value(a["val"]))
+        if kind == "getm_names_type":
+            return f(names=odd_value(a["val"]))
+    if kind == "geta_kwargs":
+        kw = dict(resample_str=dict(resample="x"), filter_unknown=dict(filterargs=("nosuch", 1.0)), filter_short=dict(filterargs=("lp",)),
+                  filter_type=dict(filterargs="lp"), twin_resample=dict(twin=(0.0, 1.0), resample=[0.0, 0.5, 1.0]),
+                  unknown_kw=dict(no_such_option=1))[a["which"]]
+        return db.geta(name=res(a["t"]), store=a["store"], **kw)
+    if kind == "series":
+        ts = db.get(name=res(a["t"]), store=a["store"])
+        series_refused(ts, a["which"])
+        state.setdefault("touched", []).append(ts)      # (not refused after all: what the object holds is the caller's business now)
+        return None
+    if kind == "load_missing":
+        return db.load(missing_path(paths))
+    if kind == "load_again":
+        return db.load(paths[a["file"]], read=a["read"])
+    if kind == "load_ext":
+        return db.load(scratch_file(paths, "ext"))
+    if kind == "load_dir":
+        return db.load(os.path.dirname(paths[0]))
+    if kind == "load_type":
+        return db.load(odd_value(a["val"]))
+    if kind == "load_partway":
+        bad = dict(missing=missing_path(paths), ext=scratch_file(paths, "ext"), dir=os.path.dirname(paths[0]))[a["then"]]
+        return db.load([scratch_file(paths, "ok"), bad], read=a["read"])
+    if kind == "clear_type":
+        return db.clear(names=odd_value(a["val"]), display=False)
+    if kind == "add_type":
+        return db.add(odd_value(a["val"]))
+    if kind == "update_taken":
+        return db.update(db) if a.get("t") is None else db.update(db, names=res(a["t"]))
+    if kind == "update_type":
+        return db.update("not a database")
+    if kind == "copy_type":
+        return db.copy(names=odd_value(a["val"]))
+    if kind == "export_type":
+        return db.export(5)
+    if kind == "export_ext":
+        return db.export(os.path.join(scratch_dir(paths), "refused_export", "out.xyz"))
+    if kind == "getdf":
+        return db.to_dataframe(store=a["store"])
+    if kind == "file_gone":
+        # (the data file of `file` has been moved away by the caller of this function and is put back afterwards)
+        keys = list(db.register_keys)
+        return getattr(db, a["api"])(names=keys[::-1] if a["rev"] else keys, store=a["store"])
+    raise ValueError("unknown kind of refused call: %r" % (op,))
+
+
 def call(state, op, specs, paths):
-    """one operation on the real database -> 'done' | 'err kind' | list of (container key | None, name | None, t, x)"""
+    """one operation on the real database -> 'done' | 'err kind' | list of (container key | None, name | None, t, x);
+    op `refuse`: 'refused <exception>' | 'accepted'"""
     from qats import TsDB
     db = state["db"]
     st = op_style(op)
+    if op[0] == "refuse":
+        try:
+            do_refused(state, op, specs, paths)
+        except Exception as e:
+            return "refused " + type(e).__name__
+        return "accepted"
     try:
         if op[0] == "load":
             arg = spell_load(op, paths)
@@ -1476,6 +1781,55 @@ def simple_expectation(op, specs, paths, loaded, reg=None, cur=None):
     return out
 
 
+TIME_LIMIT = [6.0, 1.0, 0.3]  # seconds a single call on a database may take (a normal call takes milliseconds):
+HUNG = object()             # until a call has failed to return in this process / after that / after five (the check keeps to its budget)
+HANGS = []
+REFUSING = []               # the histories with refused calls evaluated in this process before the first call that did not return
+
+
+def time_limit():
+    return TIME_LIMIT[0 if not HANGS else 1 if len(HANGS) < 5 else 2]
+
+
+class Worker(object):
+    """a long-lived daemon thread that makes the calls on the databases, so that a call that never returns (e.g. waiting for a lock
+    an earlier, refused call did not release) does not stop the check: the caller waits for the outcome for a limited time and
+    leaves a worker that does not answer behind"""
+    current = None
+
+    def __init__(self):
+        self.inbox, self.outbox = queue.SimpleQueue(), queue.SimpleQueue()
+        threading.Thread(target=self.loop, daemon=True).start()
+
+    def loop(self):
+        while True:
+            f = self.inbox.get()
+            try:
+                self.outbox.put((True, f()))
+            except BaseException as e:          # (`call` turns the exceptions of the library into outcomes: this is a harness error)
+                self.outbox.put((False, e))
+
+    @classmethod
+    def run(cls, f, what):
+        if cls.current is None:
+            cls.current = Worker()
+        w = cls.current
+        w.inbox.put(f)
+        try:
+            ok, res = w.outbox.get(timeout=time_limit())
+        except queue.Empty:
+            cls.current = None
+            HANGS.append(what)
+            return HUNG
+        if not ok:
+            raise res
+        return res
+
+
+class Abandon(Exception):
+    """the harness can no longer follow the registry of the database (recorded as a disagreement)"""
+
+
 VALUES = "a series read from a file carries exactly the time and data arrays stored in the file under that name"
 
 
@@ -1499,6 +1853,9 @@ def execute(specs, paths, ops, model=None, chk=None, inp=None, verbose=False, nr
         i2 = dict(inp or {}, upto=upto)
         if "diff" in kw:
             i2["diff"] = kw.pop("diff")
+        if kw.get("before"):
+            i2["before"] = kw.pop("before")
+        kw.pop("before", None)
         d = dict(oracle=text, input=i2, expected=expected, observed=observed, **kw)
         fails.append(d)
         if chk is not None:
@@ -1564,6 +1921,9 @@ def execute(specs, paths, ops, model=None, chk=None, inp=None, verbose=False, nr
             return
         if op[0] in ("rename", "clear"):
             registry_op(st8, op, res, ldd, upto, who)
+            return
+        if op[0] == "refuse":
+            refused_op(st8, op, res, upto, who)
             return
         keymap = st8["keymap"]
         exp = simple_expectation(op, specs, paths, ldd, st8["reg"], st8["cur"])
@@ -1646,6 +2006,47 @@ def execute(specs, paths, ops, model=None, chk=None, inp=None, verbose=False, nr
                 print("register keys after", op, "\n  expected:", want, "\n  impl    :", have)
         audit(st8, upto, "held by the database, after %s%s" % (op[0], who))
 
+    def refused_op(st8, op, res, upto, who):
+        """a call that the database refused (it raised): the database is as it was -- every series it holds is what the file holds
+        under the name it is registered under (evaluated here), and the retrievals that follow are evaluated as always"""
+        if chk is not None:
+            chk.count("oracle:after-refusal")
+            chk.dist("refusal:%s:%s" % (op[1], res))
+        want = [paths[fi] + os.path.sep + st8["cur"][(fi, j)] for fi, j in st8["reg"]]
+        have = list(st8["db"].register_keys)
+        if have != want or (res == "accepted" and op[1] in REFUSE_MUST):
+            # (what the register lists after a refused call is the registry property's business; here it means that the harness no
+            # longer knows what is registered where -- a broken tie, not a violation of this property)
+            d = dict(stream="registry", input=dict(inp or {}, first_difference_at_op=upto - 1), model=str((op[1], "refused", want))[:600],
+                     impl=str((op[1], res, have))[:600])
+            dis.append(d)
+            if chk is not None:
+                chk.disagree(d["stream"], d["input"], d["model"], d["impl"])
+            if verbose:
+                print("register keys after", op, res, "\n  expected:", want, "\n  impl    :", have)
+            raise Abandon()
+        audit(st8, upto, "held by the database, after a call that it refused (%s: %s)%s" % (op[1], res, who))
+
+    def run_call(st8, op):
+        """the call, made by the worker thread with a time limit (a call that does not return is reported; the check itself must
+        never hang)"""
+        moved = None
+        if op[0] == "refuse" and op[1] == "file_gone":
+            moved = paths[op[2]["file"]]
+            os.rename(moved, moved + ".gone")               # the data file is missing while this call is made
+        try:
+            return Worker.run(lambda: call(st8, op, specs, paths), op[:2])
+        finally:
+            if moved:
+                os.rename(moved + ".gone", moved)
+
+    def hung(op, upto, who):
+        # (state shared between databases -- a lock, a cache of the module -- may have been left behind by a call that an EARLIER
+        # history of this process saw refused: those histories are part of the failing input)
+        before = [b for b in REFUSING if b.get("ops") is not ops][-10:]
+        fail("every call on a file-backed database returns (also after earlier calls were refused)", upto,
+             "the call returns (within a few seconds)", "no return: %s" % (op[:2],), clause="hang", how=who, before=before)
+
     def after_touch(st8, op, upto, who):
         """the caller changes the series it was just handed; every OTHER series the database holds is still what the file holds"""
         ts = st8.pop("handed", None)
@@ -1661,16 +2062,24 @@ def execute(specs, paths, ops, model=None, chk=None, inp=None, verbose=False, nr
                              "held by the database, after the caller changed ANOTHER series it was handed (%s)%s" % (
                                  op_style(op).get("kind", "dtg2"), who), st8)
 
+    if not HANGS and any(op[0] == "refuse" for op in ops):
+        REFUSING.append(dict(specs=specs, ops=ops))
     cwd = os.getcwd()
     try:
         os.chdir(os.path.dirname(os.path.dirname(paths[0])))      # relative file names are relative to this directory
         mpos = 0
         for n, op in enumerate(ops):
             if shadow is not None and n < len(shadow):
-                res2 = call(state2, shadow[n], specs, paths)
+                res2 = run_call(state2, shadow[n])
+                if res2 is HUNG:
+                    hung(shadow[n], n + 1, " (second database on the same files)")
+                    break
                 oracles(state2, shadow[n], res2, loaded2, n + 1, " (second database on the same files)")
                 after_touch(state2, shadow[n], n + 1, " (second database on the same files)")
-            res = call(state, op, specs, paths)
+            res = run_call(state, op)
+            if res is HUNG:
+                hung(op, n + 1, "")
+                break
             db = state["db"]
             oracles(state, op, res, loaded, n + 1, "")
             changed = set(k for k in keymap if tainted(state, k))      # (before this op's own change: its outcome was taken first)
@@ -1716,6 +2125,8 @@ def execute(specs, paths, ops, model=None, chk=None, inp=None, verbose=False, nr
                     model = None                    # the oracles go on without the model
                 if f15 and chk is not None:
                     chk.dist("asc series compared modulo F15")
+    except Abandon:
+        pass                                # (recorded as a broken tie: the rest of the history cannot be followed)
     finally:
         os.chdir(cwd)
     return dis, fails
@@ -1874,6 +2285,24 @@ def run(chk):
         for i in feature:
             if len(specs[i]["names"]) > 1 or not chk.quick:
                 hist.append(("feature-registry", [specs[i]], [paths[i]], registry_history([specs[i]], rng, chk.quick), None))
+        # calls that the database REFUSES (every kind the entry points can reject: taken / ill-typed new names, unknown and ambiguous
+        # names, indices out of range, ill-typed and conflicting arguments, processing options that are rejected after the series has
+        # been read, files that are missing / unreadable / already registered / gone from disk, ...) between retrievals on the same
+        # database, also after accepted renames; one and two files per database, three cache states
+        for fmt in FORMATS:
+            cands = byfmt[fmt][:nvar]
+            for q in range(2 if chk.quick else 8):
+                ids = [cands[(q + 1) % len(cands)]]
+                if q % 2:
+                    o = rng.choice(byfmt[rng.choice(FORMATS)][:nvar])
+                    if o not in ids:
+                        ids = ids + [o] if rng.random() < 0.5 else [o] + ids
+                sps = [specs[i] for i in ids]
+                hist.append(("refusal", sps, [paths[i] for i in ids], registry_history(sps, rng, chk.quick, refuse="all"), None))
+        for n, i in enumerate(feature):
+            if not chk.quick or n % 2 == chk.seed % 2:
+                hist.append(("feature-refusal", [specs[i]], [paths[i]],
+                             registry_history([specs[i]], rng, chk.quick, refuse="all" if n % 4 < 2 else "some"), None))
         # corpus entries bring their own file contents: write them
         for n, (kind, sps, pths, ops, meta) in enumerate(hist):
             if pths is None:
@@ -1961,6 +2390,12 @@ def replay(rp):
             ppaths = [write_file(root, sp) for sp in pr["specs"]]
             _, pf = execute(pr["specs"], ppaths, pr["ops"], inp=dict(specs=pr["specs"], ops=pr["ops"]))
             print("(earlier session %d on the same paths: %d failing clause(s))" % (n, len(pf)))
+        for n, pr in enumerate(inp.get("before") or []):
+            # histories with refused calls that were evaluated earlier in the same process (on other databases)
+            broot = os.path.join(root, "before%d" % n)
+            bpaths = [write_file(broot, sp) for sp in pr["specs"]]
+            _, pf = execute(pr["specs"], bpaths, pr["ops"], inp=dict(specs=pr["specs"], ops=pr["ops"]))
+            print("(earlier history %d of the same process: %d failing clause(s))" % (n, len(pf)))
         paths = [write_file(root, sp) for sp in specs]
         model, nrec = None, None
         try:
